@@ -58,6 +58,30 @@ def select_columns(sql):
     if not m: return []
     return [c.strip().split('.')[-1].split(' ')[-1] for c in m.group(1).split(',')]
 
+def install_time_stubs(eng):
+    # date/time text formatting goes through iostreams + date.h: not the subject here, replaced by arbitrary sane values
+    def parse_ft(st, a):
+        v = st.new_input('parsed_time_ns', 64, 'env'); st.var_ranges = dict(st.var_ranges); st.var_ranges[v.get_id()] = (0, 1 << 61); st.pc.append(z3.ULE(v, 1 << 61))
+        return v
+    eng.models['_ZN9djinterop4util8parse_ftERKNSt7__cxx1112basic_stringIcSt11char_traitsIcESaIcEEE'] = parse_ft
+    def to_ft(st, a):
+        ret = a[0]      # sret std::string
+        eng.store(st, ret, 8, P(ret.obj, ret.off + 16)); eng.store(st, P(ret.obj, ret.off + 8), 8, 19)
+        for i, ch in enumerate(b'2020-01-01 00:00:00\0'[:16]): eng.store(st, P(ret.obj, ret.off + 16 + i), 1, ch)
+        # 19 chars do not fit the 15-byte SSO buffer: use a heap buffer
+        buf = st.alloc(32, 'heap', 'ft-string'); o = st.mem[buf.obj]
+        for i, ch in enumerate(b'2020-01-01 00:00:00\0'): o.cells[i] = (1, ch)
+        eng.store(st, ret, 8, buf); eng.store(st, P(ret.obj, ret.off + 16), 8, 31)
+    eng.models['_ZN9djinterop4util5to_ftB5cxx11ERKNSt6chrono10time_pointINS1_3_V212system_clockENS1_8durationIlSt5ratioILl1ELl1000000000EEEEEE'] = to_ft
+    def date_format(st, a):
+        # date::format(fmt, time_point) -> std::string (sret): iostream formatting, replaced by a fixed well-formed time stamp
+        ret = a[0]
+        buf = st.alloc(32, 'heap', 'ft-string'); o = st.mem[buf.obj]
+        for i, ch in enumerate(b'2020-01-01 00:00:00\0'): o.cells[i] = (1, ch)
+        eng.store(st, ret, 8, buf); eng.store(st, P(ret.obj, ret.off + 8), 8, 19); eng.store(st, P(ret.obj, ret.off + 16), 8, 31)
+    eng.model_prefixes.append(('_ZN4date6formatIc', date_format))
+
+
 def install_abstract_v2(eng, fail='none', rows_mode='one', null='never', row_exists=True, sane_ints=True, concrete_blobs=True):
     CONCRETE_BLOBS[0] = concrete_blobs
     def blob(st, s_, col):
@@ -100,27 +124,7 @@ def install_abstract_v2(eng, fail='none', rows_mode='one', null='never', row_exi
     cfg = {'fail': fail, 'blob': blob, 'coltype': coltype, 'rows': rows, 'max_rows': max_rows, 'null': null, 'column': column, 'row_exists': row_exists}
     models_sqlite.install(eng, cfg)
     models_zlib.install_identity(eng)
-    # date/time text formatting goes through iostreams + date.h: not the subject here, replaced by arbitrary sane values
-    def parse_ft(st, a):
-        v = st.new_input('parsed_time_ns', 64, 'env'); st.var_ranges = dict(st.var_ranges); st.var_ranges[v.get_id()] = (0, 1 << 61); st.pc.append(z3.ULE(v, 1 << 61))
-        return v
-    eng.models['_ZN9djinterop4util8parse_ftERKNSt7__cxx1112basic_stringIcSt11char_traitsIcESaIcEEE'] = parse_ft
-    def to_ft(st, a):
-        ret = a[0]      # sret std::string
-        eng.store(st, ret, 8, P(ret.obj, ret.off + 16)); eng.store(st, P(ret.obj, ret.off + 8), 8, 19)
-        for i, ch in enumerate(b'2020-01-01 00:00:00\0'[:16]): eng.store(st, P(ret.obj, ret.off + 16 + i), 1, ch)
-        # 19 chars do not fit the 15-byte SSO buffer: use a heap buffer
-        buf = st.alloc(32, 'heap', 'ft-string'); o = st.mem[buf.obj]
-        for i, ch in enumerate(b'2020-01-01 00:00:00\0'): o.cells[i] = (1, ch)
-        eng.store(st, ret, 8, buf); eng.store(st, P(ret.obj, ret.off + 16), 8, 31)
-    eng.models['_ZN9djinterop4util5to_ftB5cxx11ERKNSt6chrono10time_pointINS1_3_V212system_clockENS1_8durationIlSt5ratioILl1ELl1000000000EEEEEE'] = to_ft
-    def date_format(st, a):
-        # date::format(fmt, time_point) -> std::string (sret): iostream formatting, replaced by a fixed well-formed time stamp
-        ret = a[0]
-        buf = st.alloc(32, 'heap', 'ft-string'); o = st.mem[buf.obj]
-        for i, ch in enumerate(b'2020-01-01 00:00:00\0'): o.cells[i] = (1, ch)
-        eng.store(st, ret, 8, buf); eng.store(st, P(ret.obj, ret.off + 8), 8, 19); eng.store(st, P(ret.obj, ret.off + 16), 8, 31)
-    eng.model_prefixes.append(('_ZN4date6formatIc', date_format))
+    install_time_stubs(eng)
     def op_done(st, a):
         st.env['op_threw'] = a[0]
         q = st.env.get('sq')
